@@ -11,10 +11,11 @@
    deviations KF (used only by the *_KF invariants). *)
 EXTENDS GrLlgr, TraceUtil
 
-CONSTANTS KF          \* set of deviations tolerated by the *_KF invariants
+CONSTANTS KF,         \* set of deviations tolerated by the *_KF invariants
+          Triage      \* TRUE: additionally sort the traces (see TriStep); no influence on the invariants
 
-VARIABLES l, cfg, h, k, srt, up, capsOf, upAt, eorFrom, weakEver, strongEver, now, obs, hasObs
-tvars == <<l, cfg, h, k, srt, up, capsOf, upAt, eorFrom, weakEver, strongEver, now, obs, hasObs>>
+VARIABLES l, cfg, h, k, srt, up, capsOf, upAt, eorFrom, weakEver, strongEver, now, obs, hasObs, tri
+tvars == <<l, cfg, h, k, srt, up, capsOf, upAt, eorFrom, weakEver, strongEver, now, obs, hasObs, tri>>
 
 NoCfg == [gr |-> FALSE, notif |-> FALSE, llgr |-> FALSE, rtlocal |-> 0, deferral |-> 0, restart |-> FALSE]
 FixedCaps(p) ==
@@ -31,7 +32,7 @@ Blank == /\ h = HInit /\ k = HInit
          /\ weakEver = [f \in Fams |-> FALSE] /\ strongEver = FALSE
          /\ now = 0 /\ obs = [none |-> TRUE] /\ hasObs = FALSE
 
-TraceInit == l = 1 /\ cfg = NoCfg /\ Blank
+TraceInit == l = 1 /\ cfg = NoCfg /\ Blank /\ tri = [tid |-> 0, bad |-> "", kbad |-> ""]
 
 IsEvent(e) == l <= TLen /\ Trace[l].ev = e /\ l' = l + 1
 Row == Trace[l]
@@ -56,6 +57,7 @@ TReset == /\ IsEvent("Reset")
           /\ eorFrom' = [p \in Nbrs |-> [f \in Fams |-> FALSE]]
           /\ weakEver' = [f \in Fams |-> FALSE] /\ strongEver' = FALSE
           /\ now' = 0 /\ obs' = [none |-> TRUE] /\ hasObs' = FALSE
+          /\ tri' = [tid |-> Row.tid, bad |-> "", kbad |-> ""]
 
 TUpR == /\ IsEvent("Up") /\ Row.p = "R" /\ ~h.up
         /\ h' = HUp(cfg, h, T, {}, Row.caps) /\ k' = HUp(cfg, k, T, KF, Row.caps)
@@ -104,8 +106,7 @@ TTick == /\ IsEvent("Tick")
          /\ h' = HTick(cfg, h, T, {}) /\ k' = HTick(cfg, k, T, KF)
          /\ SyncSame /\ TakeObs /\ UNCHANGED <<cfg, srt, up, capsOf, upAt, eorFrom>>
 
-TraceNext == TReset \/ TUpR \/ TUpO \/ TLossR \/ TAnnR \/ TWdR \/ TAnnS \/ TWdS \/ TEor \/ TFail \/ TTick
-TraceSpec == TraceInit /\ [][TraceNext]_tvars
+TraceStep == TUpR \/ TUpO \/ TLossR \/ TAnnR \/ TWdR \/ TAnnS \/ TWdS \/ TEor \/ TFail \/ TTick
 
 ---------------------------------------------------------------------------
 (* harness sanity, NOT property verdicts *)
@@ -189,6 +190,50 @@ C12_PurgeNotEarly_KF           == HoldsK("early")
 C12_StaleUsableMarked_KF       == HoldsK("stale")
 C12_PurgeExactlyWhen_KF        == HoldsK("purge")
 C12_NoForeignRoutes_KF         == Judged(k) => (obs.extra = <<>> \/ k.over)
+
+---------------------------------------------------------------------------
+(* TRIAGE (not a verdict): tri remembers, per trace, the first strict clause and the first *_KF clause that do
+   not hold, and prints them once.  With Triage = TRUE in a cfg WITHOUT the C12 invariants one TLC run sorts a
+   whole batch into "passes / fails the strict cfg", so that the verdict runs (strict cfg, KF cfg) can be
+   organised without one TLC restart per failing trace.  The verdicts themselves are the invariants above. *)
+FirstBad ==
+  CASE ~C12_PrefixLimitRemovesAll -> "C12_PrefixLimitRemovesAll"
+    [] ~C12_NoGrRemovesAll -> "C12_NoGrRemovesAll"
+    [] ~C12_NonQualifyingRemovesAll -> "C12_NonQualifyingRemovesAll"
+    [] ~C12_FamilySplit -> "C12_FamilySplit"
+    [] ~C12_PurgeOnReestablish -> "C12_PurgeOnReestablish"
+    [] ~C12_PurgeNotEarly -> "C12_PurgeNotEarly"
+    [] ~C12_SecondLoss -> "C12_SecondLoss"
+    [] ~C12_LlgrDepreferencedAndRestricted -> "C12_LlgrDepreferencedAndRestricted"
+    [] ~C12_StaleUsableMarked -> "C12_StaleUsableMarked"
+    [] ~C12_PurgeExactlyWhen -> "C12_PurgeExactlyWhen"
+    [] ~C12_NoForeignRoutes -> "C12_NoForeignRoutes"
+    [] ~C12_DeferralWithholds -> "C12_DeferralWithholds"
+    [] OTHER -> ""
+FirstBadK ==
+  CASE ~C12_PrefixLimitRemovesAll_KF -> "C12_PrefixLimitRemovesAll_KF"
+    [] ~C12_NoGrRemovesAll_KF -> "C12_NoGrRemovesAll_KF"
+    [] ~C12_NonQualifyingRemovesAll_KF -> "C12_NonQualifyingRemovesAll_KF"
+    [] ~C12_FamilySplit_KF -> "C12_FamilySplit_KF"
+    [] ~C12_PurgeOnReestablish_KF -> "C12_PurgeOnReestablish_KF"
+    [] ~C12_PurgeNotEarly_KF -> "C12_PurgeNotEarly_KF"
+    [] ~C12_SecondLoss_KF -> "C12_SecondLoss_KF"
+    [] ~C12_LlgrDepreferencedAndRestricted_KF -> "C12_LlgrDepreferencedAndRestricted_KF"
+    [] ~C12_StaleUsableMarked_KF -> "C12_StaleUsableMarked_KF"
+    [] ~C12_PurgeExactlyWhen_KF -> "C12_PurgeExactlyWhen_KF"
+    [] ~C12_NoForeignRoutes_KF -> "C12_NoForeignRoutes_KF"
+    [] ~C12_DeferralWithholds -> "C12_DeferralWithholds"
+    [] OTHER -> ""
+TriStep ==
+  IF ~Triage THEN tri' = tri
+  ELSE LET b == IF tri.bad = "" THEN FirstBad' ELSE tri.bad
+           kb == IF tri.kbad = "" THEN FirstBadK' ELSE tri.kbad
+       IN /\ tri' = [tri EXCEPT !.bad = b, !.kbad = kb]
+          /\ (tri.bad = "" /\ b # "") => PrintT("VPOUT " \o ToJson([tid |-> tri.tid, inv |-> b, line |-> l]))
+          /\ (tri.kbad = "" /\ kb # "") => PrintT("VPOUT " \o ToJson([tid |-> tri.tid, kinv |-> kb, line |-> l]))
+
+TraceNext == TReset \/ (TraceStep /\ TriStep)
+TraceSpec == TraceInit /\ [][TraceNext]_tvars
 
 ---------------------------------------------------------------------------
 (* distinct non-trivial cases: the antecedent of the property really exercised *)
